@@ -19,7 +19,7 @@ fn cidr_token(c: &Option<String>) -> String {
     }
 }
 
-fn ip_token(ip: &Option<IpAddr>) -> String {
+pub fn ip_token(ip: &Option<IpAddr>) -> String {
     match ip {
         None => "none".into(),
         Some(IpAddr::V4(x)) => format!("4 {}", u32::from(*x)),
@@ -27,7 +27,7 @@ fn ip_token(ip: &Option<IpAddr>) -> String {
     }
 }
 
-fn rules_tokens(rules: &[Rule]) -> String {
+pub fn rules_tokens(rules: &[Rule]) -> String {
     let mut s = format!("{}", rules.len());
     for r in rules {
         s.push_str(&format!(
@@ -194,16 +194,32 @@ pub fn run(ctx: &mut Ctx) {
                 Some(b) => hex(b),
             };
             if let Some(ipv) = ip {
-                let v = engine.evaluate(ipv, rnd.as_deref());
-                let ans = if v == RuleEvaluation::Allow { "allow" } else { "deny" };
-                ctx.emit(&format!("c04 eval 0 {} {} {}", ip_token(ip), rtok, rt), ans);
-                ctx.stat(&format!("engine_{}", ans));
+                let q = format!("c04 eval 0 {} {} {}", ip_token(ip), rtok, rt);
+                match catch(std::panic::AssertUnwindSafe(|| engine.evaluate(ipv, rnd.as_deref()))) {
+                    Ok(v) => {
+                        let ans = if v == RuleEvaluation::Allow { "allow" } else { "deny" };
+                        ctx.emit(&q, ans);
+                        ctx.stat(&format!("engine_{}", ans));
+                    }
+                    Err(m) => {
+                        ctx.emit(&q, "panic");
+                        ctx.oracle_failure("panic", &format!("RulesEngine::evaluate panicked ({}) on {}", m, q));
+                    }
+                }
             }
             if let Some(core) = &core {
-                let ok = core.verif_evaluate_connection_rules(*ip, rnd.as_deref());
-                let ans = if ok { "allow" } else { "deny" };
-                ctx.emit(&format!("c04 eval 1 {} {} {}", ip_token(ip), rtok, rt), ans);
-                ctx.stat(&format!("connection_{}", ans));
+                let q = format!("c04 eval 1 {} {} {}", ip_token(ip), rtok, rt);
+                match catch(std::panic::AssertUnwindSafe(|| core.verif_evaluate_connection_rules(*ip, rnd.as_deref()))) {
+                    Ok(ok) => {
+                        let ans = if ok { "allow" } else { "deny" };
+                        ctx.emit(&q, ans);
+                        ctx.stat(&format!("connection_{}", ans));
+                    }
+                    Err(m) => {
+                        ctx.emit(&q, "panic");
+                        ctx.oracle_failure("panic", &format!("evaluate_connection_rules panicked ({}) on {}", m, q));
+                    }
+                }
             }
         }
     }
